@@ -42,11 +42,22 @@ pub const WEIGHTS: [(Letter, u32); 15] = [
     (Letter::Garbage, 6),
 ];
 
-const OWNED: [&str; 6] = ["eid-cells", "set-eid-accepted", "set-discovered-flag", "get-eid", "no-response", "wrong-command"];
+/// What a history monitor judges: discrepancy categories, and the request commands whose
+/// response-related discrepancies (no-response, wrong-command, malformed-response) it owns.
+pub struct Owned {
+    pub cats: &'static [&'static str],
+    pub cmds: &'static [u8],
+    /// must an accepted request of these commands be answered at all?
+    pub must_answer: &'static [u8],
+}
+
+/// C13: both EID cells after every step; Set/Get Endpoint ID response content; an accepted
+/// assignment must be answered (the statement says so), a Get Endpoint ID need not be.
+const OWNED: Owned = Owned { cats: &["eid-cells", "set-eid-accepted", "set-discovered-flag", "get-eid", "no-response", "wrong-command", "malformed-response"], cmds: &[0x01, 0x02], must_answer: &[0x01] };
 
 /// Execute a history on fresh contexts, judging every step. `letters[i]` names the class of op i
 /// (for keys); when absent (replay) the op kind is used. Returns true if a discrepancy was found.
-pub fn run_history(h: &History, letters: Option<&[Letter]>, owned: &[&str], prop_tag: u64, rep: &mut Report, trace_id: Option<u64>) -> bool {
+pub fn run_history(h: &History, letters: Option<&[Letter]>, owned: &Owned, prop_tag: u64, rep: &mut Report, trace_id: Option<u64>) -> bool {
     let mut models: Vec<Model> = h.cfgs.iter().map(Model::new).collect();
     let mut found = false;
     if let Some(id) = trace_id {
@@ -73,6 +84,7 @@ pub fn run_history(h: &History, letters: Option<&[Letter]>, owned: &[&str], prop
                     None
                 }
             };
+            let others_before: Vec<(u8, u8)> = ctxs.iter().map(|c| crate::libapi::eids(c)).collect();
             let obs = exec(&mut ctxs[ci], op, 64 + (i * 37 + 11) % 200, prop_tag ^ i as u64);
             rep.eval();
             if let Some(id) = trace_id {
@@ -105,8 +117,13 @@ pub fn run_history(h: &History, letters: Option<&[Letter]>, owned: &[&str], prop
             }
             let discs = judge(exp.as_ref(), &obs, &models[ci]);
             for d in discs {
-                if !owned.contains(&d.cat) {
+                if !owned.cats.contains(&d.cat) {
                     continue;
+                }
+                if let Some(cmd) = d.cmd {
+                    if !owned.cmds.contains(&cmd) || (d.cat == "no-response" && !owned.must_answer.contains(&cmd)) {
+                        continue;
+                    }
                 }
                 let class = match letters {
                     Some(ls) => ls[i].name(),
@@ -123,17 +140,20 @@ pub fn run_history(h: &History, letters: Option<&[Letter]>, owned: &[&str], prop
                 // the model and the context have diverged; later steps would only echo it
                 break;
             }
-            // cross-talk check: the contexts not touched must still equal their models
-            for (k, c) in ctxs.iter().enumerate() {
-                if k != ci {
-                    let e = crate::libapi::eids(c);
-                    if e != (models[k].req_eid, models[k].resp_eid) {
-                        found = true;
-                        rep.violation(
-                            "eid-cells:cross-talk-between-contexts",
-                            || format!("step {} on context {} changed the EID of context {} to {:?}", i, ci, k, e),
-                            || History { cfgs: h.cfgs.clone(), ops: h.ops[..=i].to_vec() }.encode(),
-                        );
+            // cross-talk check (a `static` shared between contexts would show here): a step on one
+            // context must not change the EID cells of another
+            if owned.cats.contains(&"eid-cells") {
+                for (k, c) in ctxs.iter().enumerate() {
+                    if k != ci {
+                        let e = crate::libapi::eids(c);
+                        if e != others_before[k] {
+                            found = true;
+                            rep.violation(
+                                "eid-cells:cross-talk-between-contexts",
+                                || format!("step {} on context {} changed the EID cells of context {} from {:?} to {:?}", i, ci, k, others_before[k], e),
+                                || History { cfgs: h.cfgs.clone(), ops: h.ops[..=i].to_vec() }.encode(),
+                            );
+                        }
                     }
                 }
             }
